@@ -65,7 +65,7 @@ PROPS["C10"] = {
             "vs the text files in /repo/opening-hours/data parsed at run time; calendar count()/iter() vs the file's set; "
             "Country::ALL vs the regions of the files; every string of length <= 3 over [A-Za-z] plus case/whitespace variants "
             "through the code parser; 'PH'/'SH' evaluated with the country's calendar on every listed date, its neighbours and a "
-            "stride of unlisted days. evaluations = lookups; distinct_nontrivial = (country, kind) calendars with at least one date.",
+            "stride of unlisted days; plus lookup HISTORIES: all 115 x 115 ordered pairs of countries looked up back to back and 12 (thorough 200) random sequences of 345 lookups per worker, every result compared with the file's set (ordered_pairs_of_lookups = 13 225, lookups_in_random_sequences ~ 66 000). evaluations = lookups; distinct_nontrivial = (country, kind) calendars with at least one date.",
     "assumptions": ["the two text files are the source data", "chrono date parsing"],
 }
 
